@@ -357,6 +357,37 @@ def lib_hsl_parse(text):
     return dict(kind="hsl-lib", chans=chans, alpha=None)
 
 
+def css4_parse(text, over=(255, 255, 255)):
+    """Spellings of CSS Color 4 that CSS Color 3 does not have and whose meaning is nevertheless fixed by CSS: an hsl() hue with
+    an angle unit (deg, grad, turn), and hex with an alpha digit pair (#rrggbbaa, #rgba) - the latter composited over `over`
+    (white: what a translucent BACKGROUND goes over), admissible within 1.5 units like every composite.  The unchanged library
+    refuses these spellings; a build that starts accepting them is held to this meaning."""
+    if not isinstance(text, str):
+        return None
+    low = text.strip(" \t\r\n\f").lower()
+    m = re.fullmatch(rf"hsl\({_WS}({_NUM})(deg|grad|turn){_WS},{_WS}({_NUM})%{_WS},{_WS}({_NUM})%{_WS}\)", low)
+    if m:
+        v = Fraction(m.group(1))
+        h = v if m.group(2) == "deg" else v * 9 / 10 if m.group(2) == "grad" else v * 360
+        sat = _clamp(Fraction(m.group(3)), 0, 100) / 100
+        lig = _clamp(Fraction(m.group(4)), 0, 100) / 100
+        return dict(kind="hsl-unit", chans=[_round_half_set(_clamp(c, 0, 1) * 255) for c in hsl_exact(h, sat, lig)], alpha=None)
+    m = re.fullmatch(r"#([0-9a-f]{8}|[0-9a-f]{4})", low)
+    if m:
+        d = m.group(1)
+        if len(d) == 4:
+            d = "".join(ch * 2 for ch in d)
+        rgb = [int(d[i:i + 2], 16) for i in (0, 2, 4)]
+        a = Fraction(int(d[6:8], 16), 255)
+        chans = []
+        for c, o in zip(rgb, over):
+            exact = c * a + o * (1 - a)
+            lo, hi = exact - Fraction(3, 2), exact + Fraction(3, 2)
+            chans.append({k for k in range(256) if lo <= k <= hi})
+        return dict(kind="hex-alpha", chans=chans, alpha=None)
+    return None
+
+
 def css_read_opaque(text):
     """Read-back of an opaque CSS colour as a single 8-bit triple, or None when the value is not
     valid CSS, is translucent, or denotes a tie (two admissible values)."""
